@@ -1,20 +1,105 @@
 """Per-property claim texts for MANIFEST.json (source of truth; run tools/gen_manifest.py)."""
-HOOK_COMMITS = []
-NOTES = ("Every check is decided by Kani/CBMC over the real crate; exit 2 = inconclusive (timeout/OOM/cover unsat/non-reproducing "
-         "counterexample) is never reported as pass or violation. Known findings: /verif/known_findings.json.")
-BOUNDED = "bounded symbolic verification (SAT-decided for every value of the symbolic inputs within stated bounds; nothing claimed outside)"
+HOOK_COMMITS = ["f7d18a2"]
+NOTES = ("Every check is decided by Kani 0.68 / CBMC 6.11 (SAT) over the real crate, recompiled from /repo's working tree through a path dependency. "
+         "check.py exit codes: 0 = all obligations hold within the stated bounds; 1 = VIOLATION (counterexample replayed natively against the real crate); "
+         "2 = inconclusive (timeout / out of memory / unsatisfied cover witness / stub not applied / counterexample that does not reproduce) - never a pass. "
+         "Harness results are cached under .work/cache keyed by SHA-256 of every source file of /repo and of the harness crate, so a cache hit is the same program. "
+         "Genuine defects found and repaired are listed in known_findings.json (status fixed; they suppress nothing).")
+T = "Kani/CBMC bounded symbolic execution of the real code; "
 CLAIMED = {
+ "C01": dict(
+  text="Conjunction of unit obligations, no monolithic round trip (measured infeasible): (S) the exact size-field functions both sides call are inverse for ALL sizes in every width "
+       "(reserved all-ones pattern never produced for a known size); (W) each element encoder emits id | size | payload as the reference format for all 64-bit values, every id length, "
+       "payload lengths 0..3 and 126..128, explicit widths; end_tag lays out prefix | id | size | content; (R) is C03/C16. Composition by induction over the tag sequence is a written argument (DESIGN T5).",
+  design_ref="DESIGN.md §6 C01", note="Unit-level; nesting mechanics of the reader (read_next) are NOT covered (DESIGN §11). Trusted: oracles, stubs fmt/ToolError Display/io drop, hook wrappers.",
+  technique=T + "writer encoders and vint size codec vs reference byte format, all 64-bit values per unit"),
+ "C02": dict(
+  text="Claimed for (V) value re-encoding only: decoders are total functions of the payload (C16a) and the writer's encoders invert them for every 64-bit value, so dec(enc(dec(x))) == dec(x); 4-byte floats widen exactly; "
+       "and (H) the writer and reader call the same validate_tag_path, decided against the declared-path pattern semantics (C11a). The End-emission part (E) lives in read_next and is not covered.",
+  design_ref="DESIGN.md §6 C02", note="Partial: fixpoint over whole streams is a written composition of (V)+(H)+C01; streams with unknown-size closing are outside.",
+  technique=T + "decoder/encoder inverse for all 64-bit values + hierarchy validator vs pattern oracle"),
+ "C03": dict(
+  text="(a) every accepted header equals the reference parse of the bytes at the cursor for a fully symbolic 24-byte buffer (id, type, size, header length), read position unchanged; "
+       "(b) public next() on an enumerated family of master-free documents with all payload bytes symbolic: id at reported offset, value == reference decoding of exactly the payload bytes, offsets tile, then None; "
+       "implied ancestors of a mid-document start are stored with offset 0. End/Full offsets (read_next/buffer_master) not covered.",
+  design_ref="DESIGN.md §6 C03", note="Tiling for arbitrary streams = (a) + cursor advance observed in (b), by induction (T5). Specs Flat/Tree; payload <= 8 bytes; <= 3 items per document.",
+  technique=T + "header unit on symbolic window + public next() on enumerated skeletons with symbolic payloads"),
+ "C04": dict(
+  text="(a) header result is a function of the bytes below the fill level only (stale bytes symbolic); (b) ensure_data_read keeps the buffered window equal to the stream at every absolute position for "
+       "scripted short reads / temporary EOF / first fill / allocation smaller than the request incl. 0; (c) public next() over enumerated read partitions and capacities {0,1,5,16} of a 7-byte document with symbolic payloads equals the reference result.",
+  design_ref="DESIGN.md §6 C04", note="Longer inputs by induction from (a)+(b) (T5). 3 scripted reads of <= 8 bytes; partitions enumerated, not symbolic.",
+  technique=T + "refill unit over a scripted symbolic reader + header unit with symbolic stale bytes + enumerated chunkings"),
+ "C05": dict(
+  text="Every unit reached is panic-free for all symbolic inputs (Rust panics, overflow, bounds, unwinding assertions are CBMC checks): header parse on any 24-byte buffer/fill/mask/limit, refill under any read script, "
+       "decoders on any slice <= 9, try_recover from a seeded state on any remainder (never backwards, Err only EOF/ReadError), source error surfaces as ReadError with the same OS error; accepted header >= 2 bytes within available bytes (item bound); fused None on enumerated documents.",
+  design_ref="DESIGN.md §6 C05", note="read_next/buffer_master bodies are exercised only through the enumerated master-free documents; hang-freedom rests on the ranking argument (T5).",
+  technique=T + "panic-freedom of each reader unit on fully symbolic inputs"),
+ "C06": dict(
+  text="Decision logic only: per header, against any valid chain of open masters over spec Tree with symbolic known/unknown sizes and extents, an element is accepted iff its id is declared, its declared path matches the chain left after closing "
+       "unknown-size masters, and it lies inside every known-size ancestor; otherwise HierarchyError/OversizedChildElement; implied ancestors of a mid-document start are stored as End. "
+       "The mechanics (End emission order, closing loop, EOF closing) live in read_next: NOT covered.",
+  design_ref="DESIGN.md §6 C06/C07", note="Partial claim (decision logic). Spec Tree, depth <= 3, 1-byte ids.",
+  technique=T + "hierarchy/containment checks of the header unit vs pattern oracle on seeded stacks"),
+ "C07": dict(
+  text="Decision logic only: is_ended_by(m, e) for all masters m of Tree and ALL 2^64 ids e == (sibling | ancestor instance | root), never global/undeclared; header acceptance judged against the chain after closing per the property's recursive rule. "
+       "The closing loop itself and known/unknown equivalence of whole documents are in read_next: NOT covered.",
+  design_ref="DESIGN.md §6 C06/C07", note="Partial claim (decision logic).",
+  technique=T + "is_ended_by truth table over all ids + header unit with unknown-size stacks"),
+ "C09": dict(
+  text="Per unit: ids emitted unchanged for every well-formed id; explicit width honoured exactly and only the size field changes (numeric all 64-bit values, binary/utf8 payload 0..3 symbolic bytes, widths 1,2,4,8 / dispatch of all 8 widths through the public API); "
+       "end_tag layout for concrete shapes with symbolic bytes; deprecated unknown-size call == option-based call (equal post-state); short-writing destination receives exactly the buffer. Full == Start,children,End only by inspection + the rejected-Full harness.",
+  design_ref="DESIGN.md §6 C09", note="The public writer on whole documents is intractable; clause (e) Full-equivalence is not decided.",
+  technique=T + "writer units via hooks vs reference byte layout"),
+ "C10": dict(
+  text="Public write of an element with 0..2 masters open in every known/unknown combination (symbolic payload and buffered bytes): destination only extended; no known-size master open => buffer empty and element handed over and flushed; "
+       "known-size master open => destination untouched, buffer extended; private_flush delivers exactly the buffer under short writes; end_tag layout (C09a).",
+  design_ref="DESIGN.md §6 C10", note="Per-call contract with Inv_w asserted as post-condition; sequences by induction (T5). flush()/into_inner() loop over end_tag not run as a whole.",
+  technique=T + "flush contract of one public write from seeded writer states"),
+ "C11": dict(
+  text="(a) validate_tag_path == declared-path pattern semantics for ONE fully symbolic path (<= 3 parts, Id or Global(min,max) in any position) against every chain <= 3; "
+       "(b) reader call site on Tree with seeded stacks incl. unknown-size masters: HierarchyError carrying the offending id iff the remaining chain does not match; is_ended_by table.",
+  design_ref="DESIGN.md §6 C11", note="Writer call site uses the same function with known-size chains (c19_full_invalid_child exercises rejection). Multi-id symbolic spec tables outside.",
+  technique=T + "validator vs DP pattern-matching oracle, symbolic path and chain"),
+ "C12": dict(
+  text="(a) a header cut anywhere (fill 0..15, stale bytes symbolic) yields the EOF error with start == cursor, id present iff complete, no size - never corruption; (b) a two-element document cut at EVERY position, payload symbolic: "
+       "exactly the contained tags, None on a boundary, else EOF with accurate start/id/size/partial data; one cut under 1-byte reads.",
+  design_ref="DESIGN.md §6 C12", note="Ends of open masters at boundary cuts need read_next with masters: NOT covered. Flat spec, capacity 32/16.",
+  technique=T + "truncated header unit + public next() on every cut of an enumerated document"),
+ "C13": dict(
+  text="Header unit with symbolic tolerance mask (all 8) and limit: a complete header is rejected only for a fault it has, with that fault's own kind, id and offset, never for a tolerated class; accepted implies no untolerated fault "
+       "(unknown id, misplaced, overrun, above limit); default limit in force (limit symbolic incl. Some/None). Prefix-monotonicity = one-step version by induction.",
+  design_ref="DESIGN.md §6 C13", note="Flat (all header shapes) + Tree (hierarchy/oversize with seeded stacks).",
+  technique=T + "header unit: fault-set oracle under every tolerance mask"),
+ "C14": dict(
+  text="try_recover from a seeded state: 1 junk byte (any non-id value) before a valid child that fits Root at its original size => Ok, cursor +1 exactly, known size +1, next header is the planted one; "
+       "arbitrary 3-byte remainder / nothing left: never backwards, never past the end, no panic, Err only EOF/ReadError. 2 junk bytes in thorough.",
+  design_ref="DESIGN.md §6 C14", note="End-to-end 'all remaining tags as in the undamaged document' = post-state equality + C03/C06 steps (T5). Spec Mini.",
+  technique=T + "try_recover unit from seeded iterator state"),
  "C15": dict(
-  text="Every clause of the vint codec property is an assertion over fully symbolic 64-bit values / 9-byte slices of the real tools.rs "
-       "functions, compared with a loop-free reference; CBMC decides each for ALL values (2^64 per encoder, 2^72 x 10 slice lengths per decoder). "
-       "Bounded only in slice length (<= 9) and width (1..=8, the documented domain).",
+  text="Every clause of the vint codec property is an assertion over fully symbolic 64-bit values / 9-byte slices of the real tools.rs functions, compared with a loop-free reference; CBMC decides each for ALL values "
+       "(2^64 per encoder, 2^72 x 10 slice lengths per decoder). Bounded only in slice length (<= 9) and width (1..=8, the documented domain).",
   design_ref="DESIGN.md §6 C15", note="Trusted: Kani/CBMC, the reference oracles in harness/src/oracle.rs (self-tested on the repo's vectors). No stubs, no hooks.",
-  technique="Kani/CBMC bounded symbolic execution of tools.rs leaf functions vs reference oracle, all 64-bit inputs"),
+  technique=T + "tools.rs leaf functions vs reference oracle, all 64-bit inputs"),
+ "C16": dict(
+  text="Decoders on every slice of length 0..9 (all byte values) vs big-endian / sign-extended / IEEE reference, total; the writer's numeric encoders for ALL u64/i64/f64 values: minimal 1/2/4/8 width, big-endian bytes, and the decoder returns the identical value (floats bit for bit).",
+  design_ref="DESIGN.md §6 C16", note="Writer encoders reached through cfg-guarded forwarding hooks; stubs for fmt::format/ToolError Display (error text unobserved).",
+  technique=T + "payload decoders and numeric encoders, all 64-bit values"),
+ "C17": dict(
+  text="(a) header unit: a known size above the (symbolic) limit is never accepted, for every size-field width up to 8 bytes, no arithmetic overflow; (b) refill unit: after ensure_data_read(len) the allocation is at most max(previous allocation, len).",
+  design_ref="DESIGN.md §6 C17", note="'rejected before any allocation' = the header check precedes read_tag_data (call order by inspection); real allocator behaviour outside.",
+  technique=T + "size-limit check of the header unit + allocation bound of the refill unit"),
+ "C18": dict(
+  text="Accepted-declaration half, translation validation over an enumerated corpus of 4 declarations x both front-ends expanded by the REAL macros at build time: for ALL 2^64 probe ids and symbolic payloads the generated "
+       "tables/constructors/accessors mean what was declared, Void/Crc32/RawTag present, front-ends agree.",
+  design_ref="DESIGN.md §6 C18", note="'Every declaration' and the compile-error half are outside (only rustc observes them).",
+  technique=T + "derive-macro output vs declared table, all 2^64 ids"),
+ "C19": dict(
+  text="One harness per failing kind: snapshot (buffer, open masters, destination) -> failing call -> Err and state == snapshot: size not representable (binary/utf8 width 1, 126..129 bytes), unknown size on non-master, "
+       "malformed raw id (all ids), End of a non-innermost / non-open master (all ids), Full master with a misplaced child (public write).",
+  design_ref="DESIGN.md §6 C19", note="State equality => all later behaviour equal. Misplaced-tag kind through the Full-child harness and C11.",
+  technique=T + "state-snapshot equality around each rejected writer call"),
 }
-PENDING = "check not built yet in this round (see DESIGN.md §6 for the planned obligations)"
 NOT_APPLICABLE = {
- "C08": "every clause runs through buffer_master/read_next/roll_up_children, measured out of reach of Kani/CBMC (DESIGN.md §6 C08, probes 33-34)",
+ "C08": "every clause runs through buffer_master/read_next/roll_up_children, measured out of reach of Kani/CBMC (DESIGN.md §6 C08, probes 33-34); no smaller unit carries the property",
  "C20": "needs next() through the async state machine and two 64 KiB buffers; measured infeasible for Kani (DESIGN.md §6 C20, probe 20); Kani does not model async schedules",
 }
-for p in ["C01","C02","C03","C04","C05","C06","C07","C09","C10","C11","C12","C13","C14","C16","C17","C18","C19"]:
-    NOT_APPLICABLE[p] = PENDING
